@@ -90,7 +90,8 @@ func (t *transport) ReadMsg() (messages.Common, error) {
 
 	// checking that response is not error code
 	if len(data) == tl.WordLen {
-		code := int(binary.LittleEndian.Uint32(data))
+		// transport error codes are signed 32-bit integers (e.g. -404)
+		code := int(int32(binary.LittleEndian.Uint32(data)))
 		return nil, ErrCode(code)
 	}
 
